@@ -115,6 +115,10 @@ pub enum Dgram {
     /// a count word followed by small aligned words (a header that promises more offsets/tags than the datagram holds,
     /// with every word a plausible offset), padded with `fill_word` to `len` bytes; optionally RFC-framed
     Header { ietf: bool, count: u32, words: Vec<u32>, fill_word: u32, len: u32 },
+    /// an otherwise complete 1024-byte request carrying exactly these known tags (indices into the ascending list of 18)
+    /// IN THE GIVEN ORDER — nothing is sorted. VER carries draft-13, SRV this server's value, NONC the standard length,
+    /// everything else 4 bytes, and the last tag that is none of those absorbs the padding
+    TagOrder { ietf: bool, tags: Vec<u8> },
     /// `prefix` followed by `fill` up to `len` bytes
     Junk { prefix: Hex, len: u32, fill: u8 },
     Empty,
@@ -249,6 +253,35 @@ impl Dgram {
                     }
                 }
             }
+            Dgram::TagOrder { ietf, tags } => {
+                let mut m = Msg::new();
+                for t in tags {
+                    let tag = rc::KNOWN[*t as usize % 18];
+                    let v = if tag == rc::NONC {
+                        vec![0xd4u8; if *ietf { 32 } else { 64 }]
+                    } else if tag == rc::VER {
+                        VER_DRAFT13.to_le_bytes().to_vec()
+                    } else if tag == rc::SRV {
+                        server_srv.to_vec()
+                    } else {
+                        vec![0x30 + *t; 4]
+                    };
+                    m.fields.push((tag, v));
+                }
+                let target = if *ietf { 1012 } else { 1024 };
+                let have = m.encode().len();
+                if have < target {
+                    if let Some(k) = (0..m.fields.len()).rev().find(|k| ![rc::NONC, rc::VER, rc::SRV].contains(&m.fields[*k].0)) {
+                        let add = target - have;
+                        m.fields[k].1.extend(std::iter::repeat(0u8).take(add));
+                    }
+                }
+                if *ietf {
+                    m.encode_framed()
+                } else {
+                    m.encode()
+                }
+            }
             Dgram::Crafted { ietf, fields, len, words } => {
                 let nonce_len = if *ietf { 32 } else { 64 };
                 let mut m = Msg::new();
@@ -338,6 +371,7 @@ impl Dgram {
                 FieldMut::Word(..) | FieldMut::Bit(..) | FieldMut::Count(_) => "field-bits",
             },
             Dgram::Crafted { .. } => "crafted",
+            Dgram::TagOrder { .. } => "tag-order",
             Dgram::Header { .. } => "header-count",
             Dgram::Junk { .. } => "junk",
             Dgram::Empty => "empty",
@@ -415,8 +449,60 @@ pub fn any_dgram() -> impl Strategy<Value = Dgram> {
         6 => (std_req(), field_mut()).prop_map(|(base, m)| Dgram::Field { base, m }),
         2 => (bytes(0usize..=64), interesting_len(), any::<u8>()).prop_map(|(prefix, len, fill)| Dgram::Junk { prefix, len, fill }),
         1 => (Just(Hex(b"ROUGHTIM".to_vec())), interesting_len(), any::<u8>()).prop_map(|(prefix, len, fill)| Dgram::Junk { prefix, len, fill }),
+        2 => tag_order(),
         1 => Just(Dgram::Empty),
     ]
+}
+
+/// the required tags plus up to three more, sorted, then (half of the time) two positions exchanged
+pub fn tag_order() -> impl Strategy<Value = Dgram> {
+    (any::<bool>(), proptest::sample::subsequence((0u8..18).collect::<Vec<_>>(), 0..=3), any::<bool>(), any::<u8>(), any::<u8>()).prop_map(|(ietf, extra, swap, i, j)| {
+        let mut tags = tag_order_base(ietf);
+        for t in extra {
+            if !tags.contains(&t) {
+                tags.push(t);
+            }
+        }
+        tags.sort();
+        if swap && tags.len() >= 2 {
+            let (a, b) = (i as usize % tags.len(), j as usize % tags.len());
+            tags.swap(a, b);
+        }
+        Dgram::TagOrder { ietf, tags }
+    })
+}
+
+/// indices (into the ascending list of the 18 known tags) of the tags every request of the protocol carries
+pub fn tag_order_base(ietf: bool) -> Vec<u8> {
+    let pos = |t: u32| rc::KNOWN.iter().position(|k| *k == t).unwrap() as u8;
+    if ietf {
+        vec![pos(rc::VER), pos(rc::NONC)]
+    } else {
+        vec![pos(rc::NONC)]
+    }
+}
+
+/// every pair of known tags added to the required ones, in ascending order and with the two exchanged
+pub fn tag_order_grid() -> Vec<Dgram> {
+    let mut out = vec![];
+    for ietf in [false, true] {
+        for a in 0u8..18 {
+            for b in (a + 1)..18 {
+                let mut tags = tag_order_base(ietf);
+                for t in [a, b] {
+                    if !tags.contains(&t) {
+                        tags.push(t);
+                    }
+                }
+                tags.sort();
+                out.push(Dgram::TagOrder { ietf, tags: tags.clone() });
+                let (pa, pb) = (tags.iter().position(|t| *t == a).unwrap(), tags.iter().position(|t| *t == b).unwrap());
+                tags.swap(pa, pb);
+                out.push(Dgram::TagOrder { ietf, tags });
+            }
+        }
+    }
+    out
 }
 
 /// clearly invalid datagrams only (never answered under any reading): used where exact reply counts are asserted
